@@ -306,12 +306,32 @@ fn build_type(
         .map(|f| build_function(regions, f))
         .collect::<anyhow::Result<Vec<_>>>()?;
 
+    // The slots of a private virtual function are private fields of the vftable struct. A type
+    // that takes over the table of a base in another module cannot read them, so it gets no
+    // wrappers for those (a module sees its own private items and those of its ancestors).
+    let sees_private_slots = vftable.as_ref().is_none_or(|v| {
+        let table_module = match &v.type_ {
+            Type::ConstPointer(t) | Type::MutPointer(t) => match t.as_ref() {
+                Type::Raw(table_path) => table_path.parent(),
+                _ => None,
+            },
+            _ => None,
+        };
+        match (table_module, path.parent()) {
+            (Some(table_module), Some(own_module)) => {
+                table_module.len() <= own_module.len()
+                    && table_module.iter().zip(own_module.iter()).all(|(a, b)| a == b)
+            }
+            _ => true,
+        }
+    });
     let vftable_function_impl = vftable
         .as_ref()
         .map(|v| {
             v.functions
                 .iter()
                 .filter(|f| !f.is_internal())
+                .filter(|f| f.is_public() || sees_private_slots)
                 // A virtual function without a receiver has no object to take the vftable
                 // from, so it gets a slot but no wrapper.
                 .filter(|f| f.arguments.iter().any(|a| a.is_self()))
